@@ -59,6 +59,32 @@ fn atomic_goal(w: &mut Rng, scope: &[VarIx], o: &TreeOpts) -> G {
     }
 }
 
+/// A family of related disequalities: a compound one, one of its components on its own (which
+/// implies the compound one), an unrelated one, and sometimes the binding that decides one of them.
+/// The store's normalisation (who is dropped as redundant, who survives) is only exercised when
+/// such constraints meet in one store.
+fn subsumption_family(w: &mut Rng, scope: &[VarIx]) -> Vec<G> {
+    let v1 = *w.pick(scope);
+    let v2 = *w.pick(scope);
+    let v3 = *w.pick(scope);
+    let (c1, c2, c3) = (atom(w), atom(w), atom(w));
+    let mut out = vec![
+        G::Neq(T::list(vec![T::V(v1), T::V(v2)]), T::list(vec![c1.clone(), c2.clone()])),
+        G::Neq(T::V(v3), c3.clone()),
+        G::Neq(T::V(v1), c1.clone()),
+    ];
+    match w.below(4) {
+        0 => out.push(G::Eq(T::V(v3), if w.chance(1, 2) { c3 } else { atom(w) })),
+        1 => out.push(G::Eq(T::V(v2), if w.chance(1, 2) { c2 } else { atom(w) })),
+        2 => out.push(G::Neq(T::V(v2), c2)),
+        _ => {}
+    }
+    if w.chance(1, 3) {
+        w.shuffle(&mut out);
+    }
+    out
+}
+
 pub fn gen_program(w: &mut Rng, o: &TreeOpts) -> Program {
     let nq = 1 + w.below(o.max_q as usize) as u32;
     let nh = w.below(o.max_hidden as usize + 1) as u32;
@@ -67,6 +93,14 @@ pub fn gen_program(w: &mut Rng, o: &TreeOpts) -> Program {
     scope.extend(hidden.iter().cloned());
     let n = 2 + w.below(o.max_goals as usize - 1);
     let mut goals: Vec<G> = (0..n).map(|_| atomic_goal(w, &scope, o)).collect();
+    if o.neq_bias > 0 && scope.len() >= 2 && w.chance(1, 5) {
+        goals.truncate(2);
+        let at = w.below(goals.len() + 1);
+        let fam = subsumption_family(w, &scope);
+        for (i, g) in fam.into_iter().enumerate() {
+            goals.insert(at + i, g);
+        }
+    }
     if o.allow_conde && goals.len() >= 3 && w.chance(1, 4) {
         let b = goals.pop().unwrap();
         let a = goals.pop().unwrap();
